@@ -1,9 +1,11 @@
 CONSTANTS
   Limits = {1, 2, 3}
-  Ts = {2, 3}
+  Ts = {2}
   NCalls = 4
   NWakers = 2
-  LateSlack = 1
+  CompleteTh = {0, 2}
+  FailTh = {1}
+  LateSlack = 0
   WithPollPending = TRUE
   TimeoutAfterErrorOnly = FALSE
   GuardReleasedAtCall = FALSE
